@@ -236,6 +236,11 @@ def run_case(spec):
                               what='exp(log_v) = %.6g but the measure of {contains} is %.6g +- %.2g (z = %.1f)'
                               % (v, v_ref, v_ref_sd, z), z=float(z)))
 
+        n_distinct = len(np.unique(np.ascontiguousarray(xs).view(np.dtype((np.void, xs.dtype.itemsize * xs.shape[1])))))
+        if n_distinct != len(xs):
+            viols.append(dict(key='bound.samples-repeated.' + kind, kind=kind, opts=spec['opts'], shape=shape, d=d,
+                              what='%d of %d points of the sample stream are repeats of earlier points (a uniform sampler '
+                              'returns distinct points almost surely)' % (len(xs) - n_distinct, len(xs))))
         mult_s = _multiplicity(members, ys)
         mult_r = _multiplicity(members, ref)
         inside_s = bound.contains(xs)
